@@ -68,6 +68,16 @@ fn main() {
                 std::process::exit(2);
             };
             engine::install_crash_handler(spec.id);
+            // debugging aid: VP_MEMLIMIT_GB caps the address space of a worker, so that a case with a
+            // runaway allocation aborts (and is left behind by the crash handler) instead of
+            // attracting the kernel's OOM killer
+            if let Some(gb) = std::env::var("VP_MEMLIMIT_GB").ok().and_then(|s| s.parse::<u64>().ok()) {
+                let lim = libc::rlimit { rlim_cur: gb << 30, rlim_max: gb << 30 };
+                // SAFETY: plain system call
+                unsafe {
+                    _ = libc::setrlimit(libc::RLIMIT_AS, &lim);
+                }
+            }
             std::process::exit(engine::run_worker(&spec, sub, seed, tier, &shards));
         }
         Some("replay") => {
